@@ -1,4 +1,5 @@
 pub mod c01;
+pub mod giant;
 pub mod c02;
 pub mod c04;
 pub mod c05;
